@@ -19,12 +19,15 @@ Inductive phase :=
 | Held | Greeted
 | SHelo | SMail | SRcpt | SData | SBody        (* SMTP: … DATA accepted (354) / part of the body sent *)
 | PUser | PPass | PDele                        (* POP3: … TRANSACTION / message 1 marked deleted *)
+| PUpdate                                      (* POP3: QUIT acknowledged in TRANSACTION state, processDeletes running *)
 | Ending | Ended.
 
 Record session := mkS {
   ph : phase;
   stored : nat;      (* SMTP: messages of this session stored and acknowledged with 250 *)
-  left : nat         (* POP3: messages left in this session's mailbox (starts at 1) *)
+  left : nat;        (* POP3: messages left in this session's mailbox (starts at 1) *)
+  marked : bool;     (* POP3: a DELE has been accepted *)
+  committed : bool   (* POP3: QUIT was given in TRANSACTION state: the marks are to be applied *)
 }.
 
 Record srv := mkSrv {
@@ -53,7 +56,7 @@ Fixpoint upd_s (i : nat) (s : session) (xs : list (nat * session)) : list (nat *
   end.
 
 Definition running (p : phase) : bool :=
-  match p with Held | Ending | Ended => false | _ => true end.
+  match p with Held | PUpdate | Ending | Ended => false | _ => true end.
 
 (** The protocol positions, in dialogue order; a client command moves strictly forward. *)
 Definition rank (pz : proto) (p : phase) : option nat :=
@@ -69,7 +72,8 @@ Inductive action :=
 | Accept (i : nat)            (* serve: Accept() returned a connection; wg.Add(1); go … *)
 | Begin (i : nat)             (* the session goroutine starts: (SMTP) wg.Add(1); greeting *)
 | Client (i : nat) (to : phase)   (* the client's next command(s) up to a protocol position *)
-| Quit (i : nat)              (* QUIT: in-flight message completed first / deletions applied; loop ends *)
+| Quit (i : nat)              (* QUIT (SMTP: an in-flight message is completed first); POP3 in TRANSACTION state: "+OK", then UPDATE *)
+| Purge (i : nat)             (* POP3: processDeletes has removed the marked messages; loop ends *)
 | Abort (i : nat)             (* the client drops the connection; loop ends *)
 | Exit (i : nat)              (* the goroutine's last wg.Done *)
 | Cancel                      (* the context is cancelled *)
@@ -79,26 +83,45 @@ Inductive action :=
 Definition sess_step (pz : proto) (s : session) (a : action) : option (session * nat * nat) :=
   (* result: new session, wg increment, wg decrement *)
   match a with
-  | Begin _ => match ph s with Held => Some (mkS Greeted (stored s) (left s), inner pz, 0) | _ => None end
+  | Begin _ =>
+      match ph s with
+      | Held => Some (mkS Greeted (stored s) (left s) (marked s) (committed s), inner pz, 0)
+      | _ => None
+      end
   | Client _ to =>
       match rank pz (ph s), rank pz to with
-      | Some a, Some b => if a <? b then Some (mkS to (stored s) (left s), 0, 0) else None
+      | Some a, Some b =>
+          if a <? b
+          then Some (mkS to (stored s) (left s) (marked s || match to with PDele => true | _ => false end) (committed s), 0, 0)
+          else None
       | _, _ => None
       end
   | Quit _ =>
       if running (ph s) then
-        let st := match ph s with SData | SBody => S (stored s) | _ => stored s end in
-        let lf := match ph s with PDele => 0 | _ => left s end in
-        Some (mkS Ending st lf, 0, inner pz)
+        match ph s with
+        | PPass | PDele => Some (mkS PUpdate (stored s) (left s) (marked s) true, 0, 0)
+        | SData | SBody => Some (mkS Ending (S (stored s)) (left s) (marked s) (committed s), 0, inner pz)
+        | _ => Some (mkS Ending (stored s) (left s) (marked s) (committed s), 0, inner pz)
+        end
       else None
-  | Abort _ => if running (ph s) then Some (mkS Ending (stored s) (left s), 0, inner pz) else None
-  | Exit _ => match ph s with Ending => Some (mkS Ended (stored s) (left s), 0, 1) | _ => None end
+  | Purge _ =>
+      match ph s with
+      | PUpdate => Some (mkS Ending (stored s) (if marked s then 0 else left s) (marked s) (committed s), 0, inner pz)
+      | _ => None
+      end
+  | Abort _ =>
+      if running (ph s) then Some (mkS Ending (stored s) (left s) (marked s) (committed s), 0, inner pz) else None
+  | Exit _ =>
+      match ph s with
+      | Ending => Some (mkS Ended (stored s) (left s) (marked s) (committed s), 0, 1)
+      | _ => None
+      end
   | _ => None
   end.
 
 Definition target (a : action) : option nat :=
   match a with
-  | Begin i | Client i _ | Quit i | Abort i | Exit i => Some i
+  | Begin i | Client i _ | Quit i | Purge i | Abort i | Exit i => Some i
   | _ => None
   end.
 
@@ -111,7 +134,7 @@ Definition step (y : sys) (a : action) : option sys :=
       if lopen v then
         match find_s i (ss v) with
         | Some _ => None
-        | None => Some (mkSys (cancelled y) (mkSrv (pr v) true (S (wg v)) (ss v ++ [(i, mkS Held 0 1)])))
+        | None => Some (mkSys (cancelled y) (mkSrv (pr v) true (S (wg v)) (ss v ++ [(i, mkS Held 0 1 false false)])))
         end
       else None
   | Cancel => Some (mkSys true v)
@@ -181,7 +204,11 @@ Inductive lop :=
 | LFinish (i : nat)
 | LAbort (i : nat)
 | LProbe (p : proto)
-| LDrain (p : proto).
+| LDrain (p : proto)
+| LQuit (i : nat)             (* POP3: send QUIT, read the reply, do not wait for the connection to close *)
+| LEnd (i : nat)              (* wait for the server to close the connection, look at the mailbox *)
+| LGate                       (* the store's RemoveMessage now blocks … *)
+| LUngate.                    (* … until here *)
 
 Inductive lobs :=
 | XDot | XQ | XRefused | XHeld | XAccepted
@@ -191,19 +218,19 @@ Inductive lobs :=
 | XFinP (ok : bool) (n : nat)
 | XReturned | XBlocked | XJoined | XFine | XOther.
 
-Record world := mkW { wc : bool; ws : srv; wp : srv }.
+Record world := mkW { wc : bool; ws : srv; wp : srv; wgate : bool }.
 
-Definition world_init : world := mkW false (srv_init PSmtp) (srv_init PPop3).
+Definition world_init : world := mkW false (srv_init PSmtp) (srv_init PPop3) false.
 
 Definition srv_of (w : world) (p : proto) : srv := match p with PSmtp => ws w | PPop3 => wp w end.
 Definition set_srv (w : world) (p : proto) (v : srv) : world :=
-  match p with PSmtp => mkW (wc w) v (wp w) | PPop3 => mkW (wc w) (ws w) v end.
+  match p with PSmtp => mkW (wc w) v (wp w) (wgate w) | PPop3 => mkW (wc w) (ws w) v (wgate w) end.
 
 (** Run actions on one server of the world; [None] if one is not enabled. *)
 Definition wrun (w : world) (p : proto) (acts : list action) : option world :=
   match run (mkSys (wc w) (srv_of w p)) acts with
   | None => None
-  | Some y => Some (set_srv (mkW (cancelled y) (ws w) (wp w)) p (sv y))
+  | Some y => Some (set_srv (mkW (cancelled y) (ws w) (wp w) (wgate w)) p (sv y))
   end.
 
 (** Session ids are global in the driver; which server holds session i? *)
@@ -257,14 +284,18 @@ Definition lstep (w : world) (o : lop) : world * lobs :=
       | None => (w, XQ)
       end
   | LCancel =>
-      let w1 := mkW true (ws w) (wp w) in
+      let w1 := mkW true (ws w) (wp w) (wgate w) in
       let w2 := match wrun w1 PSmtp [LClose] with Some x => x | None => w1 end in
       let w3 := match wrun w2 PPop3 [LClose] with Some x => x | None => w2 end in
       (w3, XDot)
   | LFinish i =>
       match where_is w i with
       | Some p =>
-          match wrun w p [Quit i; Exit i] with
+          let acts := match wrun w p [Quit i; Purge i; Exit i] with
+                      | Some _ => [Quit i; Purge i; Exit i]
+                      | None => [Quit i; Exit i]
+                      end in
+          match wrun w p acts with
           | Some w' =>
               match find_s i (ss (srv_of w p)), find_s i (ss (srv_of w' p)) with
               | Some s0, Some s1 =>
@@ -278,6 +309,38 @@ Definition lstep (w : world) (o : lop) : world * lobs :=
           end
       | None => (w, XQ)
       end
+  | LQuit i =>
+      match where_is w i with
+      | Some PPop3 =>
+          match wrun w PPop3 [Quit i] with
+          | Some w1 =>
+              (* processDeletes goes through unless a RemoveMessage is needed and the store is gated *)
+              let stuck := match find_s i (ss (wp w1)) with
+                           | Some s => wgate w1 && marked s && match ph s with PUpdate => true | _ => false end
+                           | None => false
+                           end in
+              if stuck then (w1, XOk)
+              else match wrun w1 PPop3 [Purge i; Exit i] with
+                   | Some w2 => (w2, XOk)
+                   | None => match wrun w1 PPop3 [Exit i] with Some w2 => (w2, XOk) | None => (w1, XOk) end
+                   end
+          | None => (w, XQ)
+          end
+      | _ => (w, XQ)
+      end
+  | LEnd i =>
+      match find_s i (ss (wp w)) with
+      | Some s => match ph s with Ended => (w, XFinP true (left s)) | _ => (w, XQ) end
+      | None => (w, XQ)
+      end
+  | LGate => (mkW (wc w) (ws w) (wp w) true, XDot)
+  | LUngate =>
+      let w0 := mkW (wc w) (ws w) (wp w) false in
+      (fold_left (fun x (p : nat * session) =>
+                    match ph (snd p) with
+                    | PUpdate => match wrun x PPop3 [Purge (fst p); Exit (fst p)] with Some x' => x' | None => x end
+                    | _ => x
+                    end) (ss (wp w)) w0, XDot)
   | LAbort i =>
       match where_is w i with
       | Some p =>
@@ -404,6 +467,23 @@ Fixpoint loracle_go (k : nat) (ops : list lop) (os : list lobs) (down : bool) (b
               | Some b => next down (upd_b (mkB i (b_pr b) Ended false) bs)
               | None => next down bs
               end
+          | LQuit i =>
+              match find_b i bs with
+              | Some b => if b_open b then (if lobs_eqb x XOk then next down bs else (LVSessionDisturbed k, os'))
+                          else next down bs
+              | None => next down bs
+              end
+          | LEnd i =>
+              match find_b i bs with
+              | Some b =>
+                  if b_open b then
+                    let want := XFinP true (match b_ph b with PDele => 0 | _ => 1 end) in
+                    if lobs_eqb x want then next down (upd_b (mkB i (b_pr b) Ended false) bs)
+                    else (LVSessionDisturbed k, os')
+                  else next down bs
+              | None => next down bs
+              end
+          | LGate | LUngate => next down bs
           | LDrain p =>
               match x with
               | XReturned => if Nat.eqb (open_count p bs) 0 then next down bs else (LVDrainEarly k, os')
